@@ -259,6 +259,14 @@ func spellRef(fromURL, toURL string, toks []string, style int, varied bool) stri
 		}
 		return toURL + frag
 	}
+	if same && noFragOnly && frag != "" {
+		// schemas carry ids in this run: a fragment-only reference below an id is read against the id
+		// (JSON-Schema scoping, which the graph model does not have); the document is named instead
+		if style%2 == 0 {
+			return path.Base(fu.Path) + frag
+		}
+		return toURL + frag
+	}
 	if same {
 		switch style % 4 {
 		case 1:
@@ -296,6 +304,9 @@ func spellRef(fromURL, toURL string, toks []string, style int, varied bool) stri
 	return rel + frag
 }
 
+// noFragOnly: set for cases whose schemas carry ids (see spellRef)
+var noFragOnly bool
+
 var schemaPositions = []string{"properties", "items", "allOf", "additionalProperties", "patternProperties", "anyOf",
 	"not", "definitions", "oneOf", "dependencies", "additionalItems", "items[]"}
 
@@ -326,6 +337,12 @@ func sectionOf(kind string) string {
 
 func concretise(c *expCase) (*concrete, error) {
 	n := len(c.Nodes)
+	noFragOnly = false
+	for _, a := range c.Nodes {
+		if a.ID != "" && c.Entry != "" && !strings.HasPrefix(c.Entry, "Resolve") && expFlags.idsNamed {
+			noFragOnly = true
+		}
+	}
 	nd := 1
 	for _, a := range c.Nodes {
 		if a.Doc+1 > nd {
@@ -732,6 +749,7 @@ var expFlags struct {
 	allFaults  bool
 	decoys     bool
 	site       string
+	idsNamed   bool
 }
 
 func init() {
@@ -750,6 +768,7 @@ func init() {
 			fs.BoolVar(&expFlags.allFaults, "allfaults", false, "graphs with exactly one dangling ref are run once per fault class")
 			fs.BoolVar(&expFlags.oddTargets, "oddtargets", false, "dangling refs point at JSON null / an empty object instead (C04 only)")
 			fs.StringVar(&expFlags.site, "site", "", "site of the root document: empty (local file) or http")
+			fs.BoolVar(&expFlags.idsNamed, "idsnamed", false, "with -ids: references into the own document name it instead of being fragment-only")
 			fs.StringVar(&expFlags.ids, "ids", "", "comma list of id classes given (in rotation) to the structured schemas: abs,relfile,reldir,frag")
 		},
 		run:     expRun,
